@@ -30,14 +30,17 @@ geometry, fields and gradients inside ``integral`` and ``sample.bind``, nested
 dtype decision (documented): kinds are ordered bool < int < float < complex.
 A value whose kind is WIDER than the argument's (float->int, complex->float,
 complex->int and likewise int/float/complex -> bool) cannot be cast without
-changing kind; accepting it is the clause-5 violation and is exactly the
-mechanism 'C13-argument-value-unsafe-cast' (numpy.asarray(value, dtype=...) in
-the generated code), whether or not the particular numbers happen to be
-representable.  A NARROWER kind (bool or int for a float argument, ...) is what
-every nutils script does (`dict(dof=2)`) and is not demanded to be rejected.
+changing kind; accepting it is the clause-5 violation (ledger mechanism
+'C13-argument-value-unsafe-cast', fixed in /repo by 79fc826: random hits carry
+that mechanism id, which suppresses nothing now), whether or not the particular
+numbers happen to be representable.  A NARROWER kind (bool or int for a float
+argument, ...) is what every nutils script does (`dict(dof=2)`) and is not
+demanded to be rejected; if accepted it must evaluate like the cast value.
+Any exception type counts as rejection (ValueError for shapes, TypeError for
+kinds on the current tree); the types seen are listed in the evidence.
 """
 
-import json, traceback, warnings
+import os, json, traceback, warnings
 import numpy
 from vlib.runner import Result, rng_for
 from vlib import tolerance
@@ -56,7 +59,11 @@ ASSUMPTIONS = ['evaluation of replace-free function arrays is the reference for 
                'linearisation with respect to an int argument is only compared with the derivative contraction (nutils defines it as zero)',
                'a narrower value kind (bool/int for float, float for complex) is a safe cast and not required to be rejected']
 BUDGET_S = {'quick': 80, 'thorough': 1350}
-NCASES = {'quick': 2000, 'thorough': 40000}
+NCASES = {'quick': 1500, 'thorough': 40000}
+if os.environ.get('C13_NCASES'):   # development only (narrow runs with --workers 3 on a loaded machine)
+    NCASES = {k: int(os.environ['C13_NCASES']) for k in NCASES}
+if os.environ.get('C13_BUDGET'):
+    BUDGET_S = {k: int(os.environ['C13_BUDGET']) for k in BUDGET_S}
 CHUNK = 10
 GRACE_S = 60
 
@@ -373,13 +380,16 @@ def monitor_linearize(case, res):
     try:
         arr = G.build(L, G.Env(decl))
         farr = G.build(f, G.Env(decl))
-    except Exception:
-        res.violation('linearize: construction failed', dict(case, values=case['values'][:1]), traceback.format_exc()[-1500:])
+    except Exception as e:
+        mech = MECH_KEY if isinstance(e, NameError) and case['spelling'] == 'argkey' else None
+        res.violation('linearize: construction failed', dict(case, values=case['values'][:1]), traceback.format_exc()[-1500:], mechanism=mech)
         return
     if farr.ndim >= 1 and any(len(decl[k][0]) >= 1 for k, v in live):
         res.count('linearize/array-valued-with-array-argument')
     if G.has_node(f, {'replace'}):
         res.count('linearize/through-replace')
+    if any(len(decl[k][0]) == 2 and decl[k][0][0] == decl[k][0][1] > 1 for k, v in live):
+        res.count('linearize/square-matrix-argument')
     listed, needed = set(arr.arguments), G.free(L)
     res.count('linearize/arguments-metadata/checked')
     if listed != needed:
@@ -841,20 +851,49 @@ def repro_raw_membership():
 
 
 def repro_loop_capture():
+    """Two symptoms of one mechanism: the loop of an integral-valued replacement gets the id `_sample_0` of the loop it
+    is substituted into.  (a) interior/interior: the simplifier moved a Take with the outer index into the inner loop
+    (wrong value; the LoopSum._take guard of 87a46f3 hides this symptom); (b) boundary/interior: the two indices have
+    different lengths, the guards compare index objects, and compilation trips an assertion."""
     from nutils import function, mesh
-    topo, geom = mesh.rectilinear([2])
-    J = function.J(geom)
-    basis = topo.basis('std', degree=1)
-    U = function.Argument('u', (3,))
-    c = function.Argument('c', (3,))
-    Gi = topo.integral(basis * c * J, degree=2)
-    F = topo.integral((basis @ U) * J, degree=1)
-    cv = numpy.array([1., 2., 4.])
+    msgs, fails = [], False
     with warnings.catch_warnings():
         warnings.simplefilter('ignore')
-        a = function.eval(function.replace_arguments(F, {'u': Gi}), dict(c=cv))
+        topo, geom = mesh.rectilinear([2])
+        J = function.J(geom)
+        basis = topo.basis('std', degree=1)
+        U = function.Argument('u', (3,))
+        c = function.Argument('c', (3,))
+        Gi = topo.integral(basis * c * J, degree=2)
+        F = topo.integral((basis @ U) * J, degree=1)
+        cv = numpy.array([1., 2., 4.])
         b = function.eval(F, dict(u=function.eval(Gi, dict(c=cv))))
-    return bool(abs(a - b) > 1e-9), f'eval(replace(int (basis@u), u: int basis*c)) = {float(a):.6g}, by value = {float(b):.6g}'
+        try:
+            a = function.eval(function.replace_arguments(F, {'u': Gi}), dict(c=cv))
+            bad = bool(abs(a - b) > 1e-9)
+            msgs.append(f'(a) eval(replace(int basis@u, u: int basis*c)) = {float(a):.6g}, by value {float(b):.6g}')
+        except Exception as e:
+            bad = True
+            msgs.append(f'(a) raised {short_exc(e)[:80]}')
+        fails |= bad
+        topo, geom = mesh.rectilinear([2, 1])
+        J = function.J(geom)
+        basis = topo.basis('std', degree=1)
+        U = function.Argument('u', (6,))
+        c = function.Argument('c', (6,))
+        Gi = topo.integral(basis * c * J, degree=1)
+        F = topo.boundary.integral((U + U) * J, degree=2)
+        cv = numpy.arange(1., 7.)
+        b = function.eval(F, dict(u=function.eval(Gi, dict(c=cv))))
+        try:
+            a = function.eval(function.replace_arguments(F, {'u': Gi}), dict(c=cv))
+            bad = not numpy.allclose(a, b, rtol=1e-9)
+            msgs.append(f'(b) eval(replace(boundary int (u+u), u: int basis*c)) = {a.tolist()}, by value {b.tolist()}')
+        except Exception as e:
+            bad = True
+            msgs.append(f'(b) replace(boundary int (u+u), u: int basis*c) raised {type(e).__name__} in {traceback.extract_tb(e.__traceback__)[-1].name}')
+        fails |= bad
+    return fails, '; '.join(msgs)
 
 
 REPRODUCERS = {MECH_KEY: repro_argument_key, MECH_CAST: repro_unsafe_cast, MECH_RAW: repro_raw_membership, MECH_LOOP: repro_loop_capture}
